@@ -1,33 +1,77 @@
----- MODULE Archive ----
-EXTENDS Dominance, TLC
-CONSTANTS MaxAdds, Comparator
-VARIABLES contents, offered, last, n
-vars == <<contents, offered, last, n>>
-Range(s) == { s[i] : i \in DOMAIN s }
+------------------------------- MODULE Archive -------------------------------
+(* C04 -- artap.archive.Archive: `add` at the grain of the code (scan over a snapshot of the content, delete dominated
+   members while scanning, stop at the first member that dominates or equals the newcomer, append otherwise) and
+   `truncate` (keep the `size` members with the largest feature value).
+
+   The comparator is ParetoCmp or any resolution of the epsilon relation EpsCmp (nondeterministic on identical vectors).
+   `nd` is the specification-level archive: the non-dominated set maintained incrementally (NDInsert); InvND / InvIncr
+   show that the implementation-shaped content, the incremental set and the declarative NonDominated(offered) coincide,
+   which is what licenses the trace validator to use the O(n) incremental form on long histories.             *)
+EXTENDS DominanceOps, TLC
+CONSTANTS M, Vals, Marks, MaxAdds, Comparator, MaxTrunc
+Vec == [c : [1..M -> Vals], m : Marks]
+VARIABLES contents, offered, nd, last, nadds, ntrunc,
+          lastop, lastx, fresh      \* what the last step was: operation, offered vector, whether it had never been offered
+vars == <<contents, offered, nd, last, nadds, ntrunc, lastop, lastx, fresh>>
+SeqRange(s) == { s[i] : i \in DOMAIN s }
 Verdicts(x, y) == IF Comparator = "pareto" THEN {ParetoCmp(x, y)} ELSE EpsCmp(x, y)
-NonDominated(S) == { x \in S : ~ \E y \in S : ParetoCmp(y, x) = 1 }
-\* implementation-shaped scan; nondeterministic only through the eps tie
+
+\* ---- implementation-shaped add -------------------------------------------------------------------------
+\* rest: snapshot still to visit; kept: survivors so far; a deleted member is simply not carried over
 RECURSIVE Scan(_, _, _)
 Scan(rest, kept, x) ==
   IF rest = <<>> THEN { [c |-> Append(kept, x), ok |-> TRUE] }
   ELSE LET cur == Head(rest) IN
-    UNION { IF f = 1 THEN Scan(Tail(rest), kept, x)
-            ELSE IF f = 2 THEN { [c |-> kept \o rest, ok |-> FALSE] }
-            ELSE IF x = cur THEN { [c |-> kept \o rest, ok |-> FALSE] }
+    UNION { IF f = 1 THEN Scan(Tail(rest), kept, x)                                  \* del self._contents[index - deleted]
+            ELSE IF f = 2 THEN { [c |-> kept \o rest, ok |-> FALSE] }                \* is_dominated: break, earlier deletions stay
+            ELSE IF x = cur THEN { [c |-> kept \o rest, ok |-> FALSE] }              \* is_contained: break
             ELSE Scan(Tail(rest), Append(kept, cur), x) : f \in Verdicts(x, cur) }
-Init == contents = <<>> /\ offered = {} /\ last = TRUE /\ n = 0
-Add(x) == /\ n < MaxAdds
-          /\ \E r \in Scan(contents, <<>>, x) :
-               /\ contents' = r.c /\ last' = r.ok
+\* ---- specification-level add ---------------------------------------------------------------------------
+NDInsert(S, x) == IF \E y \in S : Dominates(y, x) \/ y = x THEN S
+                  ELSE { y \in S : ~Dominates(x, y) } \cup {x}
+\* ---- truncate: any outcome that keeps the largest feature values ----------------------------------------
+\* before / after: sequences of feature values (ranks) of the members, after is a sub-multiset of before
+TruncOK(before, after, size) ==
+    LET Count(s, v) == Cardinality({ i \in DOMAIN s : s[i] = v })
+        vals == SeqRange(before) \cup SeqRange(after)
+    IN /\ Len(after) = (IF size < Len(before) THEN size ELSE Len(before))
+       /\ \A v \in vals : Count(after, v) <= Count(before, v)
+       /\ \A v \in vals, w \in vals : (Count(after, v) < Count(before, v) /\ Count(after, w) > 0) => w >= v
+Feat(v) == v.c[1]            \* the model's stand-in for features[getter]
+NoVec == [c |-> <<>>, m |-> 0]
+Init == /\ contents = <<>> /\ offered = {} /\ nd = {} /\ last = TRUE /\ nadds = 0 /\ ntrunc = 0
+        /\ lastop = "none" /\ lastx = NoVec /\ fresh = FALSE
+Add(x) == /\ nadds < MaxAdds
+          /\ \E r \in Scan(contents, <<>>, x) : contents' = r.c /\ last' = r.ok
           /\ offered' = offered \cup {x}
-          /\ n' = n + 1
-Next == \E x \in Vec : Add(x)
+          /\ nd' = NDInsert(nd, x)
+          /\ nadds' = nadds + 1 /\ UNCHANGED ntrunc
+          /\ lastop' = "add" /\ lastx' = x /\ fresh' = (x \notin offered)
+\* truncation re-bases the archive: what it holds afterwards is all that later additions are compared with
+Truncate(size) ==
+          /\ ntrunc < MaxTrunc /\ contents # <<>>
+          /\ \E keep \in SUBSET (DOMAIN contents) :
+               LET idx == [ k \in 1..Cardinality(keep) |-> CHOOSE i \in keep : Cardinality({ j \in keep : j < i }) = k - 1 ]
+                   aft == [ k \in DOMAIN idx |-> contents[idx[k]] ]
+               IN /\ TruncOK([ i \in DOMAIN contents |-> Feat(contents[i]) ], [ k \in DOMAIN aft |-> Feat(aft[k]) ], size)
+                  /\ contents' = aft /\ offered' = SeqRange(aft) /\ nd' = SeqRange(aft)
+          /\ ntrunc' = ntrunc + 1 /\ UNCHANGED <<last, nadds>>
+          /\ lastop' = "trunc" /\ lastx' = NoVec /\ fresh' = FALSE
+Next == (\E x \in Vec : Add(x)) \/ (\E s \in 1..2 : Truncate(s))
 Spec == Init /\ [][Next]_vars
-InvND   == Range(contents) = NonDominated(offered)
-InvOnce == \A i, j \in DOMAIN contents : i # j => contents[i] # contents[j]
-InvCovered == \A x \in offered : \E y \in Range(contents) : y = x \/ ParetoCmp(y, x) = 1
-\* result flag <=> inserted (action property)
-ResultOK == [][ \A x \in Vec : (offered' = offered \cup {x} /\ n' = n + 1) =>
-                 TRUE ]_vars
-View == <<contents, offered, last>>
-====
+\* ---- C04 ----
+InvND      == SeqRange(contents) = NonDominated(offered)                  \* exactly the non-dominated offered vectors
+InvIncr    == nd = NonDominated(offered)                                  \* the incremental form is the same set
+InvOnce    == \A i, j \in DOMAIN contents : i # j => contents[i] # contents[j]     \* one representative each
+InvMutual  == MutuallyND(SeqRange(contents))
+InvCovered == \A x \in offered : \E y \in SeqRange(contents) : y = x \/ Dominates(y, x)   \* rejected / evicted are covered
+\* an addition reports success exactly when the newcomer was inserted: success => it is a member; failure => a member
+\* dominates or equals it; a never-offered vector that is non-dominated must be accepted; a dominated one must be refused
+ResultLaw  == lastop = "add" =>
+                /\ (last => lastx \in SeqRange(contents))
+                /\ (~last => \E y \in SeqRange(contents) : y = lastx \/ Dominates(y, lastx))
+                /\ ((fresh /\ lastx \in NonDominated(offered)) => last)
+                /\ (lastx \notin NonDominated(offered) => ~last)
+\* truncation never lets the archive grow beyond the requested size
+TruncSize  == lastop = "trunc" => Len(contents) <= 2
+=============================================================================
